@@ -327,6 +327,16 @@ theorem invS_pc {st : State} {i : Inc} {th' : Thread} {c : Nat} {lg : List (Rel 
   refine ⟨h.n1, h.hinc, h.alive, h.nodup, h.cntLive, ?_⟩
   simp only [setThread_same]; exact ht
 
+theorem invS_rule {st : State} {i : Inc} {op : Op} {rest : List Op} (h : InvS st i)
+    (htodo : (st.threads 0).todo = op :: rest) : InvS (ruleStep st 0 (st.threads 0) op) i := by
+  have hfin := fun (o : Out) (g : Nat) => finish_pc (st.threads 0) _ _ o g htodo
+  unfold ruleStep
+  repeat' split
+  all_goals first
+    | exact h
+    | (refine ⟨h.n1, h.hinc, h.alive, h.nodup, h.cntLive, ?_⟩
+       simp only [setThread_same, hfin]; exact h.timeNow)
+
 theorem stepS {st st' : State} {i : Inc} (h : InvS st i) (hs : step st 0 = .ok st') : ∃ i', InvS st' i' := by
   have htn : ¬ 0 ≥ st.n := by rw [h.n1]; decide
   cases htodo : (st.threads 0).todo with
@@ -335,6 +345,12 @@ theorem stepS {st st' : State} {i : Inc} (h : InvS st i) (hs : step st 0 = .ok s
     cases op with
     | query r =>
       cases hpc : (st.threads 0).pc <;> (simp only [step, htn, htodo, if_false] at hs; cases hs; exact ⟨i, invS_finish h htodo⟩)
+    | queryV v =>
+      cases hpc : (st.threads 0).pc <;> (simp only [step, htn, htodo, if_false] at hs; cases hs; exact ⟨i, invS_finish h htodo⟩)
+    | regRule v r =>
+      cases hpc : (st.threads 0).pc <;> (simp only [step, htn, htodo, if_false] at hs; cases hs; exact ⟨i, invS_rule h htodo⟩)
+    | dropRule v =>
+      cases hpc : (st.threads 0).pc <;> (simp only [step, htn, htodo, if_false] at hs; cases hs; exact ⟨i, invS_rule h htodo⟩)
     | readc r =>
       have hr := readc_alive i r h.alive
       have key : InvS { st with inc := some (i.readc r).1,
